@@ -72,6 +72,15 @@ def plain_invocation(r) -> bytes:
     return r.choice(PREFIXES) + ind + body + r.choice(SUFFIXES)
 
 
+def two_invocations(r) -> bytes:
+    """An encoded invocation followed by a plain one inside ONE quoted string / FOR clause."""
+    enc = base64.b64encode(r.choice(["echo bee", "calc.exe", "Get-Date"]).encode("utf-16-le"))
+    first = r.choice([b"powershell -nop -e ", b"pwsh /enc ", b"powershell.exe -w -ec "]) + enc
+    second = r.choice([b"powershell -nop Remove-Item x", b"pwsh Get-Process", b"p^owershell -c dir"])
+    opener, closer = r.choice([(b'cmd /c "', b'" >nul'), (b"x '", b"' y"), (b"for /f %i in ('", b"') do z")])
+    return opener + first + r.choice([b" & ", b" ; ", b" && "]) + second + closer
+
+
 def cmd_text(r) -> bytes:
     alpha = [b"^", b'"', b"\r", b"\n", b"(", b")", b"a", b" ", b"\x00", b"&", b"^^", b"^\r\n", b"'", b"echo", b"/c"]
     head = r.choice([b"cmd", b"cmd.exe", b"c^m^d", b'"cmd"', b'"cmd.exe"', b"CMD", b"C:\\Windows\\System32\\cmd.exe",
